@@ -32,7 +32,9 @@ RULE = ('Model.errors: triple lists over 3 sources x 6 roles x 6 targets x expli
         'variables) under default, AMR, mini-AMR and random tables, compared as an unordered mapping '
         'with the reference report; decoded WF-T texts (role errors only). CLI: 1-4 input files of '
         '0-3 graphs each, compliant and not, in every order, also via stdin, run in-process through '
-        'penman.__main__.main and (sampled) as real `python -m penman` subprocesses. Non-trivial: '
+        'penman.__main__.main and (sampled) as real `python -m penman` subprocesses, also with --quiet; '
+        'graphs with 255/256/257/512 offending triples and 2x128 ... 256x1 offending graphs as real '
+        'processes (the exit status is a verdict, not a counter). Non-trivial: '
         'the report is non-empty / the input has >=2 graphs.')
 ANCHORS = ['penman.model:Model.errors', 'penman.model:_dfs', 'penman.model:Model.has_role',
            'penman.__main__:_check', 'penman.__main__:process', 'penman.__main__:main']
